@@ -186,6 +186,9 @@ class FunctionAnalysis:
             if c is not None:
                 return LF(0, {("cell",) + c: 1})
             bits = tybits(i["ty"])
+            cr = self._const_table_range(i)
+            if cr is not None:
+                return LF(0, {self._atom(o, "ctab", cr[0], cr[1]): 1})
             return LF(0, {self._atom(o, "load", -(1 << (bits - 1)) if bits < 64 else -INF, (1 << bits) - 1 if bits < 64 else INF): 1})
         if op in ("zext", "sext"):
             inner = self.lf(i["a"], st, depth + 1)
@@ -244,6 +247,44 @@ class FunctionAnalysis:
             if rr is not None:
                 return LF(0, {self._atom(o, "ret", rr[0], rr[1]): 1})
         return LF(0, {self._atom(o, "val", *self._tyrange(i["ty"])): 1})
+
+    def _const_table_range(self, ld):
+        """range of a value loaded from a constant table (array of integers or of structs of integers) at a variable row: the
+        minimum / maximum of that column over all rows of the initialiser"""
+        g = self.fn.resolve(ld["ptr"])
+        col = None
+        if g is not None and g.op == "getelementptr" and not g["idx"] and g["base"].get("k") == "inst":
+            # table[row][constant column] is two address computations: the outer one selects the column by a constant offset
+            g0 = self.fn.resolve(g["base"])
+            if g0 is not None and g0.op == "getelementptr" and g0["idx"] and g0["base"].get("k") == "global":
+                col = g["off"] // max(1, g.get("ressize") or 1)
+                g = g0
+        if g is None or g.op != "getelementptr" or g["base"].get("k") != "global" or not g["idx"]:
+            return None
+        gd = self.P.globals.get(g["base"]["name"])
+        if not gd or not gd.get("const") or not isinstance(gd.get("init"), list) or not gd["init"]:
+            return None
+        rows = gd["init"]
+        fld = None
+        path_ = g.get("path") or []
+        for e in path_:
+            if isinstance(e, dict) and "f" in e:
+                fld = e["f"]
+        if fld is None and len(path_) >= 2 and isinstance(path_[-1], dict) and isinstance(path_[-1].get("a"), int) and path_[-2].get("a") == "var":
+            fld = path_[-1]["a"]          # table[row][constant column]
+        if fld is None and col is not None:
+            fld = col
+        vals = []
+        for r in rows:
+            if isinstance(r, int) and fld is None:
+                vals.append(r)
+            elif isinstance(r, list) and fld is not None and fld < len(r) and isinstance(r[fld], int):
+                vals.append(r[fld])
+            else:
+                return None
+        if not vals:
+            return None
+        return (min(vals), max(vals))
 
     def _fit(self, inst, r, st):
         """keep the linear form only if its value cannot leave the instruction's type (signed or unsigned view)"""
